@@ -325,7 +325,8 @@ def run(run):
 
 
 LIVE_MODES = ('none', 'disconnect-late', 'disconnect-immediate-late',
-              'forced-late', 'forced-early', 'queued-late', 'queued-early')
+              'forced-late', 'forced-early', 'queued-late', 'queued-early',
+              'bulk-disconnect')
 
 
 def live_sessions(run, thorough):
@@ -343,11 +344,18 @@ def live_sessions(run, thorough):
         threshold = rng.choice((None, 0, 1, 64, 256))
         encrypted = rng.random() < 0.4
         n = rng.randrange(3, 12)
-        k = rng.randrange(0, n)
+        if mode == 'bulk-disconnect' or (mode == 'disconnect-late' and
+                                         rng.random() < 0.3):
+            # more than one write batch (300 packets) still queued when the
+            # flushing disconnect comes
+            n = (301, 700, 300, 450, 299)[(ci // len(LIVE_MODES)) % 5]
+            run.count('live_sessions_over_one_write_batch', int(n > 300))
+        k = rng.randrange(0, min(n, 12))
         from_listener = rng.random() < 0.6 or mode != 'none'
         if not run.mine(100000 + ci):
             continue
-        msgs = ['m%d-%s' % (i, 'x' * rng.choice((0, 3, 70, 200)))[:90]
+        msgs = ['m%d-%s' % (i, 'x' * (rng.choice((0, 3, 70, 200)) if n < 100
+                                      else 0))[:90]
                 for i in range(n)]
         extra = 'extra-%d' % ci
         w = {'live': True, 'mode': mode, 'pv': pv, 'threshold': threshold,
@@ -405,6 +413,8 @@ def live_sessions(run, thorough):
         def queue_all(_p=None):
             for m in msgs:
                 conn.write_packet(chat(m))
+            if mode == 'bulk-disconnect':
+                conn.disconnect()
         if from_listener:
             conn.register_packet_listener(queue_all,
                                           clientbound.login.LoginSuccessPacket)
@@ -415,7 +425,7 @@ def live_sessions(run, thorough):
                     type(p).__name__ == 'LoginSuccessPacket'
                     for p in rec.packets), 10.0)
                 queue_all()
-            if mode == 'disconnect-late':
+            if mode in ('disconnect-late', 'bulk-disconnect'):
                 expect = list(msgs)
             elif mode == 'disconnect-immediate-late':
                 expect = msgs[:k + 1]
@@ -427,7 +437,7 @@ def live_sessions(run, thorough):
                 expect = msgs + [extra]
             else:
                 expect = list(msgs)
-            if mode.startswith('disconnect'):
+            if mode.startswith('disconnect') or mode == 'bulk-disconnect':
                 pc.wait_for(lambda: state['done'], 10.0)
             else:
                 pc.wait_for(lambda: len(state['got']) >= len(expect)
@@ -472,3 +482,135 @@ def live_sessions(run, thorough):
         else:
             run.count('live_packets_matched', len(got))
     run.require('live_sessions', 1)
+    run.require('live_sessions_over_one_write_batch', 1)
+    live_incoming(run, thorough)
+
+
+def live_incoming(run, thorough):
+    """The read side on a live connection: everything the independent server
+    sends (known packets - also ones whose collections are *empty* -, unknown
+    ids, in bursts) is handed to the client's listeners as the same sequence:
+    nothing lost, duplicated or reordered between the stream and dispatch."""
+    from minecraft.networking.connection import ConnectionContext
+    from minecraft.networking.packets import PacketBuffer, clientbound
+    from ..ref import framing as rframing
+    rng = run.rng('c01-live-in')
+    cbp = clientbound.play
+
+    def lib_frame(K, ctx, **fields):
+        """(id, payload) of a packet written by the library's own class (the
+        layout is not what is judged here, the delivery is)."""
+        p = K(context=ctx, **fields)
+        buf = PacketBuffer()
+        p.write(buf)
+        frames, _left = rframing.parse_stream(buf.get_writable(),
+                                              compressed=False, threshold=None)
+        return frames[0][0], bytes(frames[0][1])
+    for ci in range(120 if thorough else 16):
+        if not run.mine(200000 + ci):
+            continue
+        pv = rng.choice((47, 340, 578, 736, 757))
+        ctx = ConnectionContext(protocol_version=pv)
+        codec = codec_for(pv)
+        known = {k.get_id(ctx) for k in cbp.get_packets(ctx)}
+        unknown = [i for i in (0x7E, 0x7D, 0x6B, 0x69) if i not in known]
+        threshold = rng.choice((None, 0, 64))
+        seq = []                      # (class name, id, payload)
+        add_action = cbp.PlayerListItemPacket.AddPlayerAction
+        for _ in range(rng.randrange(4, 40)):
+            kind = rng.choice(('ka', 'chat', 'unknown', 'explosion',
+                               'plist', 'multiblock'))
+            if kind == 'ka':
+                pid, pl = codec.encode('cb_keep_alive',
+                                       {'id': rng.getrandbits(31)})
+                seq.append(('KeepAlivePacket', pid, pl))
+            elif kind == 'chat':
+                pid, pl = codec.encode('cb_chat', {
+                    'json': '{"text":"%d"}' % len(seq), 'position': 0,
+                    'sender': '00000000-0000-0000-0000-000000000001'})
+                seq.append(('ChatMessagePacket', pid, pl))
+            elif kind == 'unknown':
+                seq.append(('Packet', rng.choice(unknown), rng.randbytes(
+                    rng.choice((0, 1, 70)))))
+            elif kind == 'explosion':
+                n = rng.choice((0, 0, 1, 3))
+                pid, pl = lib_frame(
+                    cbp.ExplosionPacket, ctx, x=1.0, y=2.0, z=3.0, radius=4.0,
+                    records=[cbp.ExplosionPacket.Record(1, 2, 3)] * n,
+                    player_motion_x=0.0, player_motion_y=0.0,
+                    player_motion_z=0.0)
+                seq.append(('ExplosionPacket', pid, pl))
+                run.count('live_in.empty_collections', int(n == 0))
+            elif kind == 'plist':
+                pid, pl = lib_frame(cbp.PlayerListItemPacket, ctx,
+                                    action_type=add_action, actions=[])
+                seq.append(('PlayerListItemPacket', pid, pl))
+                run.count('live_in.empty_collections')
+            else:
+                kw = {'chunk_section_pos': (1, 2, 3), 'invert_trust_edges':
+                      False} if pv >= 741 else {'chunk_x': 1, 'chunk_z': 2}
+                try:
+                    pid, pl = lib_frame(cbp.MultiBlockChangePacket, ctx,
+                                        records=[], **kw)
+                except Exception:
+                    continue
+                seq.append(('MultiBlockChangePacket', pid, pl))
+                run.count('live_in.empty_collections')
+        burst = rng.choice((1, 3, 10 ** 6))
+
+        def handler(io, seq=seq, pv=pv, threshold=threshold, codec=codec,
+                    burst=burst):
+            scripts.read_handshake(io)
+            scripts.login_offline(io, pv, threshold=threshold, codec=codec)
+            buf = bytearray()
+            for i, (_n, pid, pl) in enumerate(seq):
+                buf += io.encode_frame(pid, pl)
+                if (i + 1) % burst == 0:
+                    io.send_raw(bytes(buf))
+                    buf = bytearray()
+            did, dp = codec.encode('play_disconnect', {'reason': '"end"'})
+            buf += io.encode_frame(did, dp)
+            io.send_raw(bytes(buf))
+            io.half_close()
+            io.drain(8.0)
+        server = mcserver.Server(handler)
+        rec = pc.Recorder()
+        conn = pc.make_connection(server.port, rec, allowed_versions={pv})
+        w = {'live': 'incoming', 'pv': pv, 'threshold': threshold,
+             'packets': len(seq), 'burst': burst,
+             'kinds': [n for n, _i, _p in seq][:16]}
+        try:
+            conn.connect()
+            done = pc.wait_idle(conn, 20.0)
+            server.join(10.0)
+        finally:
+            server.stop()
+            pc.safe_disconnect(conn)
+        run.case(('live-in', ci))
+        if not done or [e for e in server.errors if e[1] == 'script']:
+            run.inconclusive_because('live incoming %d: %r' % (
+                ci, server.errors[:1]))
+            continue
+        run.count('live_in.sessions')
+        got = [(type(p).__name__, p.id) for p in rec.packets
+               if type(p).__name__ not in ('LoginSuccessPacket',
+                                           'SetCompressionPacket',
+                                           'DisconnectPacket')]
+        want = [(n, i) for n, i, _p in seq]
+        if got != want:
+            first = next((j for j, (a, b) in enumerate(zip(got, want))
+                          if a != b), min(len(got), len(want)))
+            run.violation('live-in/sequence', 'packets handed to the listeners'
+                          ' differ from the frames the server sent (lost/'
+                          'duplicated/reordered between stream and dispatch)',
+                          dict(w, n_got=len(got), n_expected=len(want),
+                               first_difference=first,
+                               got=got[first:first + 2],
+                               expected=want[first:first + 2],
+                               client_errors=repr(rec.exceptions[:1])))
+        elif rec.exceptions:
+            run.violation('live-in/error', 'an error was reported for a '
+                          'well-formed stream', dict(
+                              w, exc=repr(rec.exceptions[:1])))
+    run.require('live_in.sessions', 2)
+    run.require('live_in.empty_collections', 2)
